@@ -67,6 +67,8 @@ def parse_out(line):
                 l, i = it.split("=")
                 cls[unhx(l)] = int(i)
             r["cls"] = cls
+        elif t.startswith("NAMES="):
+            r["names"] = [unhx(x) for x in items(t[6:], ",")]
         elif t.startswith("EX="):
             ex = []
             for it in items(t[3:], ";"):
@@ -337,6 +339,12 @@ def judge_frame(t, got, rows=None, what="csv"):
     if got["cls"] != exp["cls"]:
         bad.append(("%s:classes" % what, "class map %s, first-appearance numbering of the labels is %s"
                     % (got["cls"], exp["cls"])))
+    if "names" in got:
+        for lab, i in got["cls"].items():
+            if i >= len(got["names"]) or got["names"][i] != lab:
+                bad.append(("%s:class-name" % what, "class_name(%d) = %r, the label encoded as %d is %r"
+                            % (i, got["names"][i] if i < len(got["names"]) else None, i, lab)))
+                break
     if len(set(got["cls"].values())) != len(got["cls"]):
         bad.append(("%s:classes" % what, "two labels share an id: %s" % got["cls"]))
     if exp["names"] is not None:
